@@ -406,6 +406,11 @@ type server struct {
 	window   time.Duration // socket timeout
 	openDone chan struct{} // closed by the harness when Open has returned
 	done     chan struct{}
+	// re-open family: how the opening ends ("" / "idle": stay silent, half-close after Open returned;
+	// "eof": half-close right after the last byte; "reset": abort the connection right after the last
+	// byte) and a signal that the harness has moved on without necessarily closing the client side
+	end     string
+	release chan struct{}
 
 	// results, valid after done is closed
 	err          error
@@ -559,6 +564,17 @@ func (s *server) run() {
 	}
 	s.lastWriteT = time.Now()
 	s.lastWriteSeq = s.seq.Add(1)
+	if s.err == nil && (s.end == "eof" || s.end == "reset") {
+		if s.end == "reset" {
+			tc.SetLinger(0)
+			c.Close()
+			<-rd
+			return
+		}
+		tc.CloseWrite()
+		s.finish(c, rd)
+		return
+	}
 	// wait until the client's kernel has acknowledged every byte of the opening
 	if s.err == nil && endBurst(time.Time{}) {
 		s.deliveredT = s.lastAckT
@@ -580,12 +596,25 @@ func (s *server) run() {
 		c.Write(s.tail)
 	}
 	tc.CloseWrite()
+	s.finish(c, rd)
+}
+
+// finish collects what the client still sends until it closes; when the harness moves on without
+// closing the client side (release), a short grace period instead.
+func (s *server) finish(c net.Conn, rd chan struct{}) {
 	select {
 	case <-rd:
+		return
+	case <-s.release: // nil channel for single-opening cases: never
+		select {
+		case <-rd:
+			return
+		case <-time.After(300 * time.Millisecond):
+		}
 	case <-time.After(30 * time.Second):
-		c.Close()
-		<-rd
 	}
+	c.Close()
+	<-rd
 }
 
 // ---------------------------------------------------------------------------------------------
